@@ -524,8 +524,12 @@ fn follow_cnames(
         if &rr.name == target && rr.rtype_with_data.matches(qtype) {
             got_match = true;
         }
-        if let RecordTypeWithData::CNAME { cname } = &rr.rtype_with_data {
-            cname_map.insert(rr.name.clone(), cname.clone());
+        // a question for the `CNAME` type itself is answered by the alias
+        // record, which is then not followed
+        if qtype != QueryType::Record(RecordType::CNAME) {
+            if let RecordTypeWithData::CNAME { cname } = &rr.rtype_with_data {
+                cname_map.insert(rr.name.clone(), cname.clone());
+            }
         }
     }
 
